@@ -73,6 +73,9 @@ def check(ctx):
         "AnyChunk, iterator items, `FixedBumpVec::from_init` and `BumpVec::from_parts` are statements of the calculus (`vconv`, `join`) and part of "
         "the derived corpus; the `AsRef`/`Borrow`/`Deref` rows and `BumpString::from_parts` are only checked at table level (C04.convs_tied); "
         "conversions of other types (`into_parts`, `into_fixed_vec`, owned_slice …) are not extracted",
+        "the wrappers WithoutShrink / WithoutDealloc are not entries of the calculus: a wrapper around a (re)borrow of a handle is typed as that "
+        "(re)borrow (their forwarding `BumpAllocatorCoreScope<'a>` impls are checked at table level by sigOK.implAdequate: the header must say "
+        "`B: BumpAllocatorCoreScope<'a>`) and the derived corpus uses them as receivers of the scope-trait methods and of a generic helper",
         "claim(&self) is typed as an exclusive borrow of its receiver (stricter than the real signature); the shared form is sound only because a "
         "claimed allocator is inert at run time (property C14), which the calculus does not model",
         "BumpPool::get always hands out a fresh arena in the calculus (reuse of returned arenas is not modelled)",
